@@ -231,7 +231,14 @@ func (s *Solver) Check(tt *TermTable, extra *Term, wantModel bool, vars []*Term)
 		s.send("(assert " + extra.ref() + ")")
 	}
 	s.send("(check-sat)")
+	// hard deadline: the solver's soft timeout is not honoured by every preprocessing step
+	watchdog := time.AfterFunc(time.Duration(s.timeoutMs)*time.Millisecond*3/2+5*time.Second, func() {
+		if s.cmd != nil && s.cmd.Process != nil {
+			s.cmd.Process.Kill()
+		}
+	})
 	rep, err := s.readReply()
+	watchdog.Stop()
 	res := Unknown
 	if err != nil {
 		s.dead = true
